@@ -6,6 +6,8 @@ mod pcodegen;
 mod elfgen;
 mod cli;
 mod par;
+mod walkgen;
+mod walkrun;
 mod out;
 mod props;
 mod rng;
